@@ -24,7 +24,7 @@ type c15L struct {
 // with two values (re-created listeners for an already notified value included). Wait is only called when it
 // has to return (notified or deregistered); a Wait that blocks instead ends in the deadlock detector.
 //
-//verif:h prop=C15 p.events=4/5 cover=listener,notify,wait-ok,wait-dereg,recreated runs=5000000 timeout=250/900
+//verif:h prop=C15 p.events=4/5 cover=listener,notify,wait-ok,wait-dereg,recreated runs=5000000 timeout=900/900
 func H_C15_notifier_hist() {
 	n := New[uint8]()
 	vals := [2]uint8{verifrt.U8("a"), verifrt.U8("b")}
@@ -89,7 +89,7 @@ func H_C15_notifier_hist() {
 
 // H_C15_notifier_conc: Wait racing with Notify / Deregister from another goroutine.
 //
-//verif:h prop=C15 preempt=2/3 cover=ok,dereg runs=5000000 timeout=250/900
+//verif:h prop=C15 preempt=2/3 cover=ok,dereg runs=5000000 timeout=900/900
 func H_C15_notifier_conc() {
 	n := New[uint8]()
 	l := n.Listener(1)
